@@ -121,6 +121,24 @@ func quickWindows(c *config.Configuration) []window {
 	add(uint64(c.NewELAIssuanceHeight), 20000)
 	add(uint64(c.HalvingRewardHeight), 20000)
 	add(uint64(c.PublicDPOSHeight), 3)
+	// the last 300000 heights, and every height where a sum or difference of the schedule
+	// parameters with the height crosses 0 or 2^32 (uint32 wrap-around of a rewritten formula)
+	add(top-150000, 150000)
+	ps := []uint64{uint64(c.HalvingRewardHeight), uint64(c.HalvingRewardInterval), uint64(c.NewELAIssuanceHeight)}
+	for _, a := range ps {
+		add(top+1-a, 2)
+		add(a, 2)
+		for _, b := range ps {
+			add(a+b, 2)
+			if a > b {
+				add(a-b, 2)
+				add(top+1-(a-b), 2)
+			}
+			if a+b <= top {
+				add(top+1-(a+b), 2)
+			}
+		}
+	}
 	if c.HalvingRewardInterval > 0 {
 		for b := uint64(c.HalvingRewardHeight); b <= top; b += uint64(c.HalvingRewardInterval) {
 			add(b, 2)
@@ -623,7 +641,7 @@ func main() {
 	r.Finish(evid.Coverage{
 		"evaluations":         st.evals + int64(cb.N) + int64(nBuilt),
 		"distinct_nontrivial": nDistinct + len(cb.Classes),
-		"rule": "(a) GetBlockReward over " + map[bool]string{true: "all 2^32 heights", false: "every halving boundary +-2, +-20000 around NewELAIssuanceHeight and HalvingRewardHeight, the first and last 20000 heights"}[all] +
+		"rule": "(a) GetBlockReward over " + map[bool]string{true: "all 2^32 heights", false: "every halving boundary +-2, +-20000 around NewELAIssuanceHeight and HalvingRewardHeight, the first 20000 and the last 300000 heights, every height where a sum/difference of height and schedule parameters crosses 0 or 2^32 (+-2)"}[all] +
 			" for mainnet, testnet, regnet: >= 0 and non-increasing after NewELAIssuanceHeight; (b) 8 heights x {dpos,pow} x fee lists x 40 coinbase vectors (canonical + every single deviation): verdict of the real coinbase rule == exact big.Rat reference; and for every (height, mode, fee list) the coinbase built by the real pow.Service.CreateCoinbaseTx + AssignCoinbaseTxRewards equals the reference split/addresses and is accepted by the rule. non-trivial = distinct subsidy values + distinct (mode, deviation, verdict, error) classes",
 		"exhaustive":              true,
 		"all_2^32_heights":        all,
